@@ -1,4 +1,5 @@
 import VsbModel.Lemmas.RestorePlan
+import VsbModel.Lemmas.PlanLive
 set_option linter.unusedSimpArgs false
 set_option linter.unusedSectionVars false
 
@@ -182,5 +183,84 @@ example : tarPathToFile "a/./b//c" = some ["a", "b", "c"] := by decide
 example : manifestPathToFile "rel/path" = none := by decide
 example : manifestPathToFile "/a/../b" = none := by decide
 example : manifestPathToFile "/" = none := by decide
+
+
+/-! ### Planning liveness: a resolvable backup is planned without complaint -/
+
+/-- What C02 guarantees of a backup made by vsb, seen from restore: the earlier manifests of the group are
+readable, no path is recorded twice among the data-carrying records, every non-empty extern record has a
+supplier — a data-carrying record of the same hash in the target itself or a `unique` record of that hash in an
+earlier backup of the group — and records of one hash agree on the size (they describe the same content). -/
+structure Resolvable (group : List (Backup H β)) (target : Nat) (recs : List (MRec H)) : Prop where
+  readable : ∀ i, i < target → ∃ b rs, group[i]? = some b ∧ b.manifest = some rs
+  ownDistinct : ((recs.filter isOwn).map (·.path)).Nodup
+  supplied : ∀ x ∈ recs, isOwn x = false →
+    (∃ r ∈ recs, isOwn r = true ∧ r.hash = x.hash) ∨
+    (∃ i, i < target ∧ ∃ b rs, group[i]? = some b ∧ b.manifest = some rs ∧ ∃ u ∈ rs, u.unique = true ∧ u.hash = x.hash)
+  sizesOwn : ∀ x ∈ recs, isOwn x = false → ∀ r ∈ recs, isOwn r = true → r.hash = x.hash → x.size = r.size
+  sizesEarlier : ∀ x ∈ recs, isOwn x = false → ∀ i, i < target → ∀ b rs, group[i]? = some b → b.manifest = some rs →
+    ∀ u ∈ rs, u.unique = true → u.hash = x.hash → x.size = u.size
+
+/-- **plan_ok_of_resolvable.**  For a resolvable backup `RestorePlan::new` succeeds, reports nothing missing and
+raises no complaint: the converse of `missing_extern_fails`, and the bridge from C02 (every backup vsb keeps is
+resolvable inside its group) to restore. -/
+theorem plan_ok_of_resolvable (group : List (Backup H β)) (target : Nat) (tb : Backup H β) (recs : List (MRec H))
+    (htb : group[target]? = some tb) (hrecs : tb.manifest = some recs) (hr : Resolvable group target recs) :
+    ∃ p, plan group target = .ok p true ∧ p.missingFiles = [] := by
+  unfold plan
+  simp only [htb, hrecs]
+  -- the target's own step
+  let X := recs.filter (fun r => !isOwn r)
+  have hX : ∀ x ∈ X, x ∈ recs ∧ isOwn x = false := by
+    intro x hx
+    have := List.mem_filter.mp hx
+    exact ⟨this.1, by simpa using this.2⟩
+  obtain ⟨t1, _, _⟩ := pushFold_inv X ([] : ToFind H) (by simp)
+  have tfrom := pushFold_from X ([] : ToFind H) X (by intro p h s ⟨l, hl, _⟩; cases hl) (fun e he => he)
+  have h0 : OwnLive X [] ({ tf := X.foldl (fun tf r => toFindPush tf r.hash r.path r.size) [] } : PlanAcc H) :=
+    ⟨rfl, t1, tfrom, (by intro p h s _ r hr'; cases hr'), (by intro k hk; simp at hk)⟩
+  have hown := ownFold_live X (recs.filter isOwn) [] _ h0 (by simpa using hr.ownDistinct)
+    (by
+      intro r hr' x hx hxh
+      obtain ⟨h1, h2⟩ := hX x hx
+      have hrm := List.mem_filter.mp hr'
+      exact hr.sizesOwn x h1 h2 r hrm.1 hrm.2 hxh.symm)
+  simp only [List.nil_append] at hown
+  have hpt : planTarget recs = (recs.filter isOwn).foldl ownStep { tf := X.foldl (fun tf r => toFindPush tf r.hash r.path r.size) [] } := rfl
+  rw [hpt]
+  generalize (recs.filter isOwn).foldl ownStep { tf := X.foldl (fun tf r => toFindPush tf r.hash r.path r.size) [] } = a0 at hown
+  -- the earlier backups
+  have hidx : ∀ i ∈ (List.range target).reverse, ∃ b rs, group[i]? = some b ∧ b.manifest = some rs ∧
+      ∀ u ∈ rs, u.unique = true → ∀ x ∈ X, x.hash = u.hash → x.size = u.size := by
+    intro i hi
+    have hlt : i < target := by simpa using hi
+    obtain ⟨b, rs, hb, hm⟩ := hr.readable i hlt
+    refine ⟨b, rs, hb, hm, ?_⟩
+    intro u hu huu x hx hxh
+    obtain ⟨h1, h2⟩ := hX x hx
+    exact hr.sizesEarlier x h1 h2 i hlt b rs hb hm u hu huu hxh.symm
+  obtain ⟨steps', ext', tf', he, hrest⟩ := earlierBackups_live X group (List.range target).reverse
+    [⟨target, a0.files⟩] a0.ext a0.tf hown.keys hown.from_ hidx
+  rw [hown.ok, he]
+  -- nothing is left to find
+  have hnone : ∀ p h s, ¬ InTf tf' p h s := by
+    intro p h s hin
+    obtain ⟨h1, h2⟩ := hrest p h s hin
+    obtain ⟨x, hx, _, hxh, _⟩ := hown.from_ p h s h1
+    obtain ⟨hx1, hx2⟩ := hX x hx
+    rcases hr.supplied x hx1 hx2 with ⟨r, hr1, hr2, hr3⟩ | ⟨i, hi, b, rs, hb, hm, u, hu, huu, huh⟩
+    · exact hown.notDone p h s h1 r (List.mem_filter.mpr ⟨hr1, hr2⟩) (by rw [hr3, hxh])
+    · exact h2 i (by simpa using hi) b rs hb hm u hu huu (by rw [huh, hxh])
+  have hmiss : tf'.flatMap (fun e => e.2.map (·.1)) = [] := by
+    rw [List.flatMap_eq_nil_iff]
+    intro e he'
+    rw [List.map_eq_nil_iff]
+    cases hl : e.2 with
+    | nil => rfl
+    | cons ps rest =>
+      exfalso
+      exact hnone ps.1 e.1 ps.2 ⟨e.2, (by cases e; exact he'), (by rw [hl]; simp)⟩
+  refine ⟨{ steps := steps', externFiles := ext', missingFiles := tf'.flatMap (fun e => e.2.map (·.1)) }, ?_, hmiss⟩
+  simp only [hmiss, List.isEmpty_nil, Bool.and_self]
 
 end Vsb.Restore
